@@ -58,6 +58,7 @@ fn text_class(text: &str) -> String {
     if lines.iter().any(|l| tok::is_tag_start(l).map(|(_, o)| l[o..].contains(':')).unwrap_or(false)) { f.push("colon-in-content"); }
     if lines.iter().any(|l| tok::is_tag_start(l).is_none() && l.contains(':')) { f.push("colon-in-continuation-line"); }
     if text.contains("\n\n") { f.push("empty-line"); }
+    if text.contains('-') { f.push("hyphen"); }
     // the primary (first) feature only: keys stay coarse but causal
     f.first().map(|x| x.to_string()).unwrap_or_else(|| "plain".into())
 }
@@ -204,14 +205,16 @@ pub fn run(ctx: &Ctx) -> i32 {
         let (msgs, _) = corpus(mt, 1, if ctx.thorough { 20_000 } else { 3_000 });
         for m in &msgs { texts.push((m.text_lf(), false)); if m.deviations == 0 { texts.push((m.text_lf().replace('\n', "\r\n"), false)); for mu in mutate::single_mutations(&m.toks(), &alphabet, false) { if mu.toks.iter().all(|t| t.content.is_ascii()) { texts.push((tok::render_lf(&mu.toks), false)); } } } }
     }
-    let pieces = [":20:", ":50K:", ":50A:", ":61:", ":86:", "x", ":", "\n"];
+    let pieces = [":20:", ":50K:", ":50A:", ":61:", ":86:", "x", ":", "\n", "-"];
     let maxl = if ctx.thorough { 7 } else { 6 };
     let mut cur: Vec<String> = vec![String::new()];
-    for _ in 0..maxl { let mut nxt = Vec::with_capacity(cur.len() * 8); for c in &cur { for p in pieces { nxt.push(format!("{c}{p}")); } } for t in &nxt { texts.push((t.clone(), true)); } cur = nxt; }
+    for _ in 0..maxl { let mut nxt = Vec::with_capacity(cur.len() * 9); for c in &cur { for p in pieces { nxt.push(format!("{c}{p}")); } } for t in &nxt { texts.push((t.clone(), true)); } cur = nxt; }
     let n_texts = texts.len();
     let accs = par::par_for(n_texts, 1024, mk, |i, a| {
         let (text, small) = &texts[i];
         a.evals += 1;
+        // a line consisting of a lone hyphen is the block terminator for one reader and content for another: unspecified
+        if *small && text.split('\n').any(|l| l == "-" || l.starts_with("-:")) { a.buckets.insert("tok:unspecified:lone-hyphen-line".into()); return; }
         match guarded(|| parse_block4_fields(text)) {
             Ok(Ok(fm)) => {
                 match compare(text, &fm) {
